@@ -57,6 +57,39 @@ theorem mutIdsL_sub_node {i : Nat} {j : Nat} {k : Kind} {ks : List String} {xs :
 
 /-! ### copy_value -/
 
+/-- the general equation of `copyValue` (every object but a Schema instance with its `__dict__`) -/
+def copyGeneric (j : Nat) (k : Kind) (ks : List String) (xs : List Val) (s : St) : Val × St :=
+  if k.copied then
+    match copyList xs s with
+    | (items', s1) => (.node s1.next k.rebuilt ks items', { s1 with next := s1.next + 1 })
+  else (.node j k ks xs, s)
+
+theorem copyGeneric_spec (j : Nat) (k : Kind) (ks : List String) (xs : List Val) (s : St)
+    (ih : s.next ≤ (copyList xs s).2.next ∧ (copyList xs s).2.writes = s.writes ∧
+      (∀ i ∈ mutIdsL (copyList xs s).1, (s.next ≤ i ∧ i < (copyList xs s).2.next) ∨ i ∈ opqIdsL xs)) :
+    s.next ≤ (copyGeneric j k ks xs s).2.next ∧ (copyGeneric j k ks xs s).2.writes = s.writes ∧
+    (∀ i ∈ (copyGeneric j k ks xs s).1.mutIds,
+      (s.next ≤ i ∧ i < (copyGeneric j k ks xs s).2.next) ∨ i ∈ (Val.node j k ks xs).opqIds) := by
+  unfold copyGeneric
+  split
+  · rename_i hc
+    obtain ⟨h1, h2, h3⟩ := ih
+    refine ⟨by simp; omega, by simpa using h2, ?_⟩
+    intro i hi
+    rcases mutIds_node_sub hi with h | h
+    · left; simp; omega
+    · rcases h3 i h with h | h
+      · left; simp; omega
+      · right; simp [Val.opqIds, hc, h]
+  · rename_i hc
+    refine ⟨Nat.le_refl _, rfl, ?_⟩
+    intro i hi
+    right
+    simp only [Val.opqIds, hc]
+    rcases mutIds_node_sub hi with h | h
+    · simp [h]
+    · simp [h]
+
 mutual
 theorem copyValue_spec (v : Val) (s : St) :
     s.next ≤ (copyValue v s).2.next ∧ (copyValue v s).2.writes = s.writes ∧
@@ -65,27 +98,27 @@ theorem copyValue_spec (v : Val) (s : St) :
   | .none => simp [copyValue, Val.mutIds]
   | .int _ => simp [copyValue, Val.mutIds]
   | .str _ => simp [copyValue, Val.mutIds]
-  | .node j k ks xs =>
-    have ih := copyList_spec xs s
+  | .node j (.inst c true) (k0 :: ks) (x0 :: xs) =>
+    -- a Schema instance: a new plain dict of its items
+    obtain ⟨h1, h2, h3⟩ := copyList_spec xs s
     simp only [copyValue]
-    split
-    · rename_i hc
-      obtain ⟨h1, h2, h3⟩ := ih
-      refine ⟨by simp; omega, by simpa using h2, ?_⟩
-      intro i hi
-      rcases mutIds_node_sub hi with h | h
-      · left; simp; omega
-      · rcases h3 i h with h | h
-        · left; simp; omega
-        · right; simp [Val.opqIds, hc, h]
-    · rename_i hc
-      refine ⟨Nat.le_refl _, rfl, ?_⟩
-      intro i hi
-      right
-      simp only [Val.opqIds, hc]
-      rcases mutIds_node_sub hi with h | h
-      · simp [h]
-      · simp [h]
+    refine ⟨by omega, h2, ?_⟩
+    intro i hi
+    rcases mutIds_node_sub hi with h | h
+    · left; omega
+    · rcases h3 i h with h | h
+      · left; omega
+      · right; simp [Val.opqIds, Kind.copied, opqIdsL, h]
+  | .node j (.inst c true) [] xs => exact copyGeneric_spec j _ [] xs s (copyList_spec xs s)
+  | .node j (.inst c true) (k0 :: ks) [] => exact copyGeneric_spec j _ (k0 :: ks) [] s (copyList_spec [] s)
+  | .node j (.inst c false) ks xs => exact copyGeneric_spec j _ ks xs s (copyList_spec xs s)
+  | .node j .list ks xs => exact copyGeneric_spec j _ ks xs s (copyList_spec xs s)
+  | .node j .tuple ks xs => exact copyGeneric_spec j _ ks xs s (copyList_spec xs s)
+  | .node j .set ks xs => exact copyGeneric_spec j _ ks xs s (copyList_spec xs s)
+  | .node j .fset ks xs => exact copyGeneric_spec j _ ks xs s (copyList_spec xs s)
+  | .node j .dict ks xs => exact copyGeneric_spec j _ ks xs s (copyList_spec xs s)
+  | .node j (.opq t) ks xs => exact copyGeneric_spec j _ ks xs s (copyList_spec xs s)
+  | .node j (.usr b) ks xs => exact copyGeneric_spec j _ ks xs s (copyList_spec xs s)
 theorem copyList_spec (xs : List Val) (s : St) :
     s.next ≤ (copyList xs s).2.next ∧ (copyList xs s).2.writes = s.writes ∧
     (∀ i ∈ mutIdsL (copyList xs s).1, (s.next ≤ i ∧ i < (copyList xs s).2.next) ∨ i ∈ opqIdsL xs) := by
@@ -110,28 +143,28 @@ theorem copyList_spec (xs : List Val) (s : St) :
 end
 
 mutual
-/-- `copy_value` returns "a new value identical to default": equal as a value -/
-theorem copyValue_veq (v : Val) (s : St) : (copyValue v s).1.veq v = true := by
+/-- `copy_value` returns "a new value identical to default": equal as a value (for values without data-class
+instances; a Schema instance comes back as a plain dict of its items) -/
+theorem copyValue_veq (v : Val) (s : St) (hn : v.noInst = true) : (copyValue v s).1.veq v = true := by
   match v with
   | .none => simp [copyValue, Val.veq]
   | .int _ => simp [copyValue, Val.veq]
   | .str _ => simp [copyValue, Val.veq]
-  | .node j k ks xs =>
-    have ih := copyList_veq xs s
-    simp only [copyValue]
-    split
-    · have hb : k.rebuilt.base = k.base := by
-        cases k with
-        | usr b => cases b <;> rfl
-        | _ => rfl
-      simp [Val.veq, ih, hb]
-    · simp [Val.veq, veqL_refl]
-theorem copyList_veq (xs : List Val) (s : St) : veqL (copyList xs s).1 xs = true := by
+  | .node j (.inst c b) ks xs => simp [Val.noInst] at hn
+  | .node j .list ks xs => exact copyGeneric_veq j _ ks xs s (by intro c b h; cases h) (copyList_veq xs s (by simpa [Val.noInst] using hn))
+  | .node j .tuple ks xs => exact copyGeneric_veq j _ ks xs s (by intro c b h; cases h) (copyList_veq xs s (by simpa [Val.noInst] using hn))
+  | .node j .set ks xs => exact copyGeneric_veq j _ ks xs s (by intro c b h; cases h) (copyList_veq xs s (by simpa [Val.noInst] using hn))
+  | .node j .fset ks xs => exact copyGeneric_veq j _ ks xs s (by intro c b h; cases h) (copyList_veq xs s (by simpa [Val.noInst] using hn))
+  | .node j .dict ks xs => exact copyGeneric_veq j _ ks xs s (by intro c b h; cases h) (copyList_veq xs s (by simpa [Val.noInst] using hn))
+  | .node j (.opq t) ks xs => exact copyGeneric_veq j _ ks xs s (by intro c b h; cases h) (copyList_veq xs s (by simpa [Val.noInst] using hn))
+  | .node j (.usr b) ks xs => exact copyGeneric_veq j _ ks xs s (by intro c b h; cases h) (copyList_veq xs s (by simpa [Val.noInst] using hn))
+theorem copyList_veq (xs : List Val) (s : St) (hn : noInstL xs = true) : veqL (copyList xs s).1 xs = true := by
   match xs with
   | [] => simp [copyList, veqL]
   | v :: vs =>
-    have h1 := copyValue_veq v s
-    have h2 := copyList_veq vs (copyValue v s).2
+    simp only [noInstL, Bool.and_eq_true] at hn
+    have h1 := copyValue_veq v s hn.1
+    have h2 := copyList_veq vs (copyValue v s).2 hn.2
     simp [copyList, veqL, h1, h2]
 theorem veq_refl (v : Val) : v.veq v = true := by
   match v with
@@ -143,6 +176,18 @@ theorem veqL_refl (xs : List Val) : veqL xs xs = true := by
   match xs with
   | [] => simp [veqL]
   | v :: vs => simp [veqL, veq_refl v, veqL_refl vs]
+theorem copyGeneric_veq (j : Nat) (k : Kind) (ks : List String) (xs : List Val) (s : St)
+    (hk : ∀ c b, k ≠ .inst c b)
+    (ih : veqL (copyList xs s).1 xs = true) : (copyGeneric j k ks xs s).1.veq (.node j k ks xs) = true := by
+  unfold copyGeneric
+  split
+  · have hb : k.rebuilt.base = k.base := by
+      cases k with
+      | usr b => cases b <;> rfl
+      | inst c b => exact absurd rfl (hk c b)
+      | _ => rfl
+    simp [Val.veq, ih, hb]
+  · simp [Val.veq, veqL_refl]
 end
 
 /-! ### the frame of a computation -/
@@ -1538,10 +1583,10 @@ theorem setattrWrites_ok (d : Decl) (fname : String) (v : Val) (hv : v.mutIds = 
   intro p hp
   unfold setattrWrites at hp
   split at hp
-  · rename_i i c ks a aks avs xs0
-    have hi : i ∈ (Val.node i (Kind.inst c) ks (Val.node a Kind.dict aks avs :: xs0)).mutIds := by
+  · rename_i i c b ks a aks avs xs0
+    have hi : i ∈ (Val.node i (Kind.inst c b) ks (Val.node a Kind.dict aks avs :: xs0)).mutIds := by
       simp [Val.mutIds, Kind.mutable, Kind.base]
-    have ha : a ∈ (Val.node i (Kind.inst c) ks (Val.node a Kind.dict aks avs :: xs0)).mutIds := by
+    have ha : a ∈ (Val.node i (Kind.inst c b) ks (Val.node a Kind.dict aks avs :: xs0)).mutIds := by
       simp [Val.mutIds, Kind.mutable, Kind.base, mutIdsL]
     simp only at hp
     split at hp
@@ -1588,9 +1633,9 @@ theorem schemaCopy_fr (v : Val) (s : St) :
           exact Or.inr h
   · exact Fr.refl (by simp [resIds])
 
-theorem setattrWrites_targets (d : Decl) (fname : String) (v : Val) (i k : Nat) (ks : List String) (a : Nat)
+theorem setattrWrites_targets (d : Decl) (fname : String) (v : Val) (i k : Nat) (b : Bool) (ks : List String) (a : Nat)
     (aks : List String) (avs xs : List Val) :
-    ∀ p ∈ setattrWrites d fname v (.node i (.inst k) ks (.node a .dict aks avs :: xs)), p.1 = i ∨ p.1 = a := by
+    ∀ p ∈ setattrWrites d fname v (.node i (.inst k b) ks (.node a .dict aks avs :: xs)), p.1 = i ∨ p.1 = a := by
   intro p hp
   simp only [setattrWrites] at hp
   split at hp
